@@ -294,3 +294,100 @@ class StubAreaChange:
         if N is None:
             return [dC]
         return [np.einsum("ijkl...,j...->ikl...", dC, N)]
+
+
+class StubStateMaterial:
+    """contract of a constitutive material with stored state z (history-dependent, rate-type):
+        gradient([F, z]) = [P(F, z), g(F, z)],   hessian([F, z]) = [A(F, z)]  with  A = dP/dF at fixed z
+    P, A, g are uninterpreted (ghost) functions of the entries of F and z per batch item.  The native float run
+    evaluates a concrete material that honours the contract (P = s(z) P0(F) + 0.05 z1 F, g = 0.9 z + ...)."""
+
+    def __init__(self, vk, dim=3, nstate=2, name="smat"):
+        self.vk, self.dim, self.nstate, self.name = vk, dim, nstate, name
+        self.base = StubMaterial(vk, dim=dim, hyperelastic=True, name=name + "0")
+        self.kwargs = {}
+        self.x = [np.eye(dim), np.zeros(nstate)]
+        self._cache = {}
+        self.calls = []
+
+    def _s(self, z):
+        return 1 + 0.3 * z[0] + 0.1 * z[-1] ** 2
+
+    def _float_P(self, F, z):
+        return self._s(z) * self.base._float_P(F) + 0.05 * z[-1] * F
+
+    def _float_A(self, F, z):
+        d = self.dim
+        I4 = np.einsum("ik,jl->ijkl", np.eye(d), np.eye(d))
+        return self._s(z) * self.base._float_A(F) + 0.05 * z[-1] * I4
+
+    def _float_g(self, F, z):
+        return np.array([0.9 * z[k] + 0.1 * (k + 1) * (np.sum(F * F) - self.dim) for k in range(self.nstate)])
+
+    def _atoms(self, Fq, zq):
+        with ring.LOCK:
+            d, ns = self.dim, self.nstate
+            args = [co(Fq[i, j]) for i in range(d) for j in range(d)] + [co(z) for z in zq]
+            for v in self._cache.values():
+                if all(ring.iszero(a - b) for a, b in zip(args, v[3])):
+                    return v
+            n = len(self._cache)
+            idx = list(itertools.product(range(d), repeat=2))
+            split = lambda f: (np.array(f[: d * d], dtype=float).reshape(d, d), np.array(f[d * d :], dtype=float))
+            Ag = {}
+            A = np.empty((d, d, d, d), dtype=object)
+            for i, J_, k, L in itertools.product(range(d), repeat=4):
+                if (k, L, i, J_) in Ag:
+                    Ag[i, J_, k, L] = Ag[k, L, i, J_]
+                else:
+                    Ag[i, J_, k, L] = ring.ghost(f"{self.name}{n}_A{i}{J_}{k}{L}", args, impl=(lambda *f, a=(i, J_, k, L): self._float_A(*split(f))[a]))
+                A[i, J_, k, L] = LP.gen(Ag[i, J_, k, L])
+            P = np.empty((d, d), dtype=object)
+            for i, J_ in idx:
+                g = ring.ghost(f"{self.name}{n}_P{i}{J_}", args, impl=(lambda *f, a=(i, J_): self._float_P(*split(f))[a]))
+                ring.set_partials(g, [Ag[i, J_, k, L] for k, L in idx] + [None] * ns)  # z is held fixed (property: "at fixed stored state")
+                P[i, J_] = LP.gen(g)
+            znew = np.empty(ns, dtype=object)
+            for k in range(ns):
+                znew[k] = LP.gen(ring.ghost(f"{self.name}{n}_g{k}", args, impl=(lambda *f, a=k: self._float_g(*split(f))[a])))
+            v = (P, A, znew, args)
+            self._cache[len(self._cache)] = v
+            return v
+
+    def _map(self, F, z, what):
+        F, z = np.asarray(F), np.asarray(z)
+        d = self.dim
+        batch = F.shape[2:]
+        shape = {"P": (d, d), "A": (d, d, d, d), "g": (self.nstate,)}[what]
+        sym = F.dtype == object or z.dtype == object
+        out = np.empty(shape + batch, dtype=object if sym else float)
+        z = np.broadcast_to(z, (self.nstate,) + batch)
+        for b in np.ndindex(*batch):
+            Fq, zq = F[(slice(None), slice(None)) + b], z[(slice(None),) + b]
+            if sym:
+                P, A, g, _ = self._atoms(Fq, zq)
+                val = {"P": P, "A": A, "g": g}[what]
+            else:
+                Fq, zq = np.asarray(Fq, dtype=float), np.asarray(zq, dtype=float)
+                val = {"P": self._float_P, "A": self._float_A, "g": self._float_g}[what](Fq, zq)
+            out[(Ellipsis,) + b] = val
+        return out
+
+    def gradient(self, x, out=None, **kwargs):
+        self.calls.append("gradient")
+        P = self._map(x[0], x[-1], "P")
+        if out is not None:
+            out[...] = P
+            P = out
+        return [P, self._map(x[0], x[-1], "g")]
+
+    def hessian(self, x, out=None, **kwargs):
+        self.calls.append("hessian")
+        A = self._map(x[0], x[-1], "A")
+        if out is not None:
+            out[...] = A
+            A = out
+        return [A]
+
+    stress = gradient
+    elasticity = hessian
